@@ -25,7 +25,7 @@ func (c20) NumCases(tier string) int {
 	return 64*4*2 + 1500
 }
 
-var c20Sizes = []int{0, 1, 100, 8449, 65535, 65536, 65537, 200000, 1 << 20}
+var c20Sizes = []int{0, 1, 100, 8449, 65535, 65536, 65537, 131072, 131073, 200000, 262144, 1 << 20}
 
 func (c20) Run(c *mon.Ctx, i int) {
 	r := c.R
@@ -46,9 +46,15 @@ func (c20) Run(c *mon.Ctx, i int) {
 		}
 		d = gen.Periodic(r, n, period)
 		periodic = period
+	} else if k := i - nper; k < 8*2*3 {
+		// fixed core: one dominant byte value among high-entropy bytes, at sizes
+		// of one, two and eight Huffman-only blocks (symbol counts at and beyond 2^16)
+		s = accelSettings[k%8]
+		fam := []string{"utf16", "dominant"}[(k/8)%2]
+		d = gen.Make(r, fam, []int{131072, 262144, 1 << 20}[k/16])
 	} else {
 		s = accelSettings[r.Intn(len(accelSettings))]
-		fam := []string{"uniform", "nearuniform", "fib", "geom", "flip", "sparsematch", "equal", "uniform", "alpha2", "mixed", "zeros-then-random"}[r.Intn(11)]
+		fam := []string{"uniform", "nearuniform", "fib", "geom", "flip", "sparsematch", "equal", "uniform", "alpha2", "mixed", "zeros-then-random", "utf16", "dominant", "utf16", "fibexact", "fibexact"}[r.Intn(16)]
 		n := c20Sizes[r.Intn(len(c20Sizes))]
 		if r.Chance(1, 3) {
 			n = gen.RandomSize(r, 0)
